@@ -23,11 +23,12 @@ CONSTANTS Filters,      \* filter sets a listener may register
           Histories,    \* set of incoming packet histories (sequences over {"A","B","U"}); "D" is appended
           Emit
 
-VARIABLES EI, OI, EO, OO, hist, batch, st,  \* configuration (constant); batch: the server sends the whole
+VARIABLES EI, OI, EO, OO, hist, batch, st, forced,  \* configuration; forced: the user finally calls write_packet(force=True)
+                                                    \* with a packet of kind "RA" (occurrence 99) (constant); batch: the server sends the whole
                                         \* history at once (one read batch, no write phase in between)
-          k, stage, queue, log, wire, closed, ignored, nw
-cfgv == <<EI, OI, EO, OO, hist, batch, st>>
-vars == <<EI, OI, EO, OO, hist, batch, st, k, stage, queue, log, wire, closed, ignored, nw>>
+          k, stage, queue, log, wire, closed, ignored, nw, fdone
+cfgv == <<EI, OI, EO, OO, hist, batch, st, forced>>
+vars == <<EI, OI, EO, OO, hist, batch, st, forced, k, stage, queue, log, wire, closed, ignored, nw, fdone>>
 
 Classes(p) == CASE p = "A" -> {"Packet", "Abs", "A"} [] p = "RA" -> {"Packet", "Abs", "RA"}
                 [] p = "B" -> {"Packet", "B"} [] p = "U" -> {"Packet"} [] p = "D" -> {"Packet", "D"}
@@ -50,8 +51,8 @@ RunList(L, name, p, occ) == RunFrom(L, name, p, occ, 1)
 
 Init == /\ EI \in Lists(MaxIn) /\ OI \in Lists(MaxIn) /\ EO \in Lists(MaxOut) /\ OO \in Lists(MaxOut)
         /\ \E h \in Histories : hist = h \o <<"D">>
-        /\ batch \in BOOLEAN /\ st \in States
-        /\ k = 1 /\ stage = "early" /\ queue = <<>> /\ log = <<>> /\ wire = <<>> /\ closed = FALSE /\ ignored = FALSE /\ nw = 0
+        /\ batch \in BOOLEAN /\ st \in States /\ forced = TRUE     \* (a run without the final forced write is a prefix of one with it)
+        /\ k = 1 /\ stage = "early" /\ queue = <<>> /\ log = <<>> /\ wire = <<>> /\ closed = FALSE /\ ignored = FALSE /\ nw = 0 /\ fdone = FALSE
 
 Cur == hist[k]
 
@@ -61,13 +62,13 @@ Early == /\ stage = "early" /\ k <= Len(hist) /\ ~closed
               /\ log' = log \o r.calls
               /\ IF r.ig THEN stage' = "after" ELSE stage' = "react"       \* IgnorePacket: skip reactor and listeners
               /\ ignored' = r.ig
-         /\ UNCHANGED <<cfgv, k, queue, wire, closed, nw>>
+         /\ UNCHANGED <<cfgv, k, queue, wire, closed, nw, fdone>>
 
 \* self.reactor.react(packet)
 ReactStep == /\ stage = "react"
              /\ queue' = IF Cur = "A" THEN Append(queue, k) ELSE queue        \* the answer to packet number k
              /\ stage' = IF Cur = "D" /\ st = "play" THEN "closing" ELSE "ordinary"
-             /\ UNCHANGED <<cfgv, k, log, wire, closed, ignored, nw>>
+             /\ UNCHANGED <<cfgv, k, log, wire, closed, ignored, nw, fdone>>
 
 \* disconnect(): flush the queue through _write_packet, then close; then the ordinary listeners still run
 Closing == /\ stage = "closing"
@@ -81,20 +82,20 @@ Closing == /\ stage = "closing"
            /\ nw' = IF queue # <<>> THEN nw + 1 ELSE nw
            /\ IF queue = <<>> \/ Len(queue) = 1 THEN closed' = TRUE /\ stage' = "ordinary"
               ELSE UNCHANGED <<closed, stage>>
-           /\ UNCHANGED <<cfgv, k, ignored>>
+           /\ UNCHANGED <<cfgv, k, ignored, fdone>>
 
 \* for listener in packet_listeners: listener.call_packet(packet)
 Ordinary == /\ stage = "ordinary"
             /\ log' = log \o RunList(OI, "OI", Cur, k).calls
             /\ stage' = "after"
-            /\ UNCHANGED <<cfgv, k, queue, wire, closed, ignored, nw>>
+            /\ UNCHANGED <<cfgv, k, queue, wire, closed, ignored, nw, fdone>>
 
 \* end of one packet: in a batch the next packet is read straight away
 After == /\ stage = "after"
          /\ IF batch /\ k < Len(hist) /\ ~closed
             THEN k' = k + 1 /\ stage' = "early"
             ELSE k' = k /\ stage' = "flush"
-         /\ UNCHANGED <<cfgv, queue, log, wire, closed, ignored, nw>>
+         /\ UNCHANGED <<cfgv, queue, log, wire, closed, ignored, nw, fdone>>
 
 \* next write phase of the networking thread: _pop_packet -> _write_packet for everything queued
 Flush == /\ stage = "flush"
@@ -106,11 +107,21 @@ Flush == /\ stage = "flush"
                     ELSE LET o == RunList(OO, "OO", "RA", Head(queue)) IN
                          /\ log' = log \o e.calls \o o.calls /\ wire' = Append(wire, Head(queue))
                  /\ UNCHANGED <<k, stage>>
-         /\ UNCHANGED <<cfgv, closed, ignored>>
+         /\ UNCHANGED <<cfgv, closed, ignored, fdone>>
 
-Done == (k > Len(hist) \/ (closed /\ stage = "early"))
-Next == Early \/ ReactStep \/ Closing \/ Ordinary \/ After \/ Flush \/ (Done /\ UNCHANGED vars)
-Spec == Init /\ [][Next]_vars /\ WF_vars(Early \/ ReactStep \/ Closing \/ Ordinary \/ After \/ Flush)
+HistDone == (k > Len(hist) \/ (closed /\ stage = "early"))
+\* write_packet(packet, force=True) from the user: lock, early outgoing listeners, write, outgoing listeners;
+\* IgnorePacket never escapes to the caller
+Forced == /\ HistDone /\ forced /\ ~fdone /\ ~closed
+          /\ LET e == RunList(EO, "EO", "RA", 99) IN
+               IF e.ig THEN /\ log' = log \o e.calls /\ UNCHANGED wire
+               ELSE LET o == RunList(OO, "OO", "RA", 99) IN
+                    /\ log' = log \o e.calls \o o.calls /\ wire' = Append(wire, 99)
+          /\ fdone' = TRUE
+          /\ UNCHANGED <<cfgv, k, stage, queue, closed, ignored, nw>>
+Done == HistDone /\ (fdone \/ ~forced \/ closed)
+Next == Early \/ ReactStep \/ Closing \/ Ordinary \/ After \/ Flush \/ Forced \/ (Done /\ UNCHANGED vars)
+Spec == Init /\ [][Next]_vars /\ WF_vars(Early \/ ReactStep \/ Closing \/ Ordinary \/ After \/ Flush \/ Forced)
 
 ----------------------------------------------------------------------------
 (* C13 as invariants over the call log                                     *)
@@ -138,9 +149,9 @@ IgnoreStops ==
         (log[i][1] \in {"EI", "OI"}) # (log[j][1] \in {"EI", "OI"})
 \* an answer is on the wire iff no early outgoing listener ignored it
 WireIffNotSuppressed ==
-  Done => Len(wire) <= Cardinality({j \in 1..Len(hist) : hist[j] = "A"})
+  Done => Len(wire) <= Cardinality({j \in 1..Len(hist) : hist[j] = "A"}) + 1
 Terminates == <>Done
 
 EmitRows == (Emit /\ Done) =>
-  PrintT(ToJson([EI |-> EI, OI |-> OI, EO |-> EO, OO |-> OO, hist |-> hist, batch |-> batch, st |-> st, log |-> log, wire |-> wire, closed |-> closed]))
+  PrintT(ToJson([EI |-> EI, OI |-> OI, EO |-> EO, OO |-> OO, hist |-> hist, batch |-> batch, st |-> st, forced |-> forced, log |-> log, wire |-> wire, closed |-> closed]))
 =============================================================================
